@@ -42,6 +42,7 @@ func checkC15(c *Ctx) {
 	c.c15RangeShrink()
 	c.c15Protocol()
 	c.c15Labelling()
+	c.c15AddCache()
 	c.c15DefaultDeleter()
 	c.c15WhoRemovesLabels()
 	// the count sums the deleters' nil results: it equals the entries removed only if the in-module Delete reports nil exactly once
@@ -785,6 +786,53 @@ func (c *Ctx) c15Protocol() {
 		if !hasViolation(r.Obls, rule, name) {
 			r.OK(rule, name, fmt.Sprintf("%d paths: %d Delete events, %d error exits, %d marks", len(paths), nDel, nErrExit, nMarks))
 		}
+	}
+}
+
+// c15AddCache: "absent from all caches registered under its cache name": AddCache adds the deleter it was given to the list of the
+// name it was given on every path (an "already registered" shortcut that compares function values by code pointer drops every
+// adapter but the first).
+func (c *Ctx) c15AddCache() {
+	r := c.R
+	name := "InvalidationIndex.AddCache"
+	e, paths, fn, err := c.runFunc(name, indexPolicy())
+	if err != nil || fn == nil {
+		r.Unknown("R15.6", name, "does not resolve")
+		return
+	}
+	sig := fn.Type().(*types.Signature)
+	if sig.Params().Len() != 2 {
+		r.Unknown("R15.6", name, "unexpected signature")
+		return
+	}
+	pName, pDel := e.Params[sig.Params().At(0)], e.Params[sig.Params().At(1)]
+	bad := false
+	n := 0
+	for _, p := range paths {
+		if p.Panic || c.featurePath(p) {
+			continue
+		}
+		n++
+		ok := false
+		for _, ev := range p.Events {
+			if ev.Kind == pw.EvMapInsert && ev.Recv != nil && ev.Recv.Field != nil && fname(ev.Recv.Field) == "deleters" && ev.Key == pName &&
+				ev.Value != nil && ev.Value.Kind == pw.KAppend {
+				for _, el := range ev.Value.Elems {
+					if el == pDel {
+						ok = true
+					}
+				}
+			}
+		}
+		if !ok && !bad {
+			bad = true
+			r.Bad("R15.6", name, "deleter-not-registered", c.Pos(p.RetPos), "AddCache returns without appending the given deleter to the list of the given name: invalidation never reaches that cache", shortTrace(p))
+		}
+	}
+	if n == 0 {
+		r.Unknown("R15.6", name, "vacuous: no path judged")
+	} else if !bad {
+		r.OK("R15.6", name, fmt.Sprintf("%d paths append the given deleter under the given name", n))
 	}
 }
 
